@@ -537,7 +537,7 @@ func recoverImage(img *image, nParts int) string {
 		if err != nil {
 			return
 		}
-		sh.DisableBackground()
+		sh.DetachFromCompactor()
 		sh.FlushIndex()
 		rows, err = sh.Dump("m", engx.AllFields(), math.MinInt64, math.MaxInt64, true)
 		if cerr := sh.Close(); err == nil && cerr != nil {
@@ -569,7 +569,7 @@ func runHistory(c *hx.Ctx, r *hx.Rng, idx int, workers int) error {
 	if err != nil {
 		return err
 	}
-	sh.DisableBackground()
+	sh.DetachFromCompactor()
 	sh.StopIndexBackground()
 	c.Emit(fmt.Sprintf("open %d", idx), "ok")
 	c.Emit(fmt.Sprintf("parts %d", nParts), "ok")
